@@ -4,6 +4,7 @@ use crate::engine::Ctx;
 pub mod c01;
 pub mod c02;
 pub mod c03;
+pub mod c04;
 pub mod c05;
 pub mod c09;
 pub mod c11;
@@ -22,6 +23,7 @@ pub fn run(id: &str, ctx: &mut Ctx) -> bool {
         "C01" => c01::run(ctx),
         "C02" => c02::run(ctx),
         "C03" => c03::run(ctx),
+        "C04" => c04::run(ctx),
         "C05" => c05::run(ctx),
         "C09" => c09::run(ctx),
         "C11" => c11::run(ctx),
@@ -92,5 +94,55 @@ pub fn bench2() {
         let lp = t.batch(pos.clone());
         let g = to_vec(&Tensor::<B64, 2>::from_inner(pos.grad(&lp.backward()).unwrap()));
         println!("{} logp lib {:e} ref {:e}; grad lib {:?} ref {:?}", spec.name(), to_vec(&lp)[0], spec.logp(&x[..d]), g, spec.grad(&x[..d]));
+    }
+}
+
+pub fn bench3() {
+    use crate::props::common::*;
+    use crate::props::targets::*;
+    use crate::engine::num::R;
+    use burn::prelude::*;
+    let spec = Spec::StudentT { dim: 1, nu: R(1.0), scale: R(0.3) };
+    let t = HTarget::new(spec.clone());
+    for x in [0.058722443878650665f64, 0.05868937075138092, 0.5, 0.001] {
+        let pos = tensor2::<B32>(&[x], 1, 1).require_grad();
+        let lp = t.batch(pos.clone());
+        let g = to_vec(&Tensor::<B32, 2>::from_inner(pos.grad(&lp.backward()).unwrap()));
+        // same with 32 rows
+        let xs = vec![x; 32];
+        let pos2 = tensor2::<B32>(&xs, 32, 1).require_grad();
+        let lp2 = t.batch(pos2.clone());
+        let g2 = to_vec(&Tensor::<B32, 2>::from_inner(pos2.grad(&lp2.backward()).unwrap()));
+        println!("x={x}: lib grad {:?} (batch32 row0 {:?}) ref {:?}; logp lib {} ref {}", g, g2[0], spec.grad(&[x]), to_vec(&lp)[0], spec.logp(&[x]));
+    }
+}
+
+pub fn bench4() {
+    use crate::props::common::*;
+    use crate::props::targets::*;
+    use crate::engine::num::{Prng, R};
+    use burn::prelude::*;
+    let mut rng = Prng::new(7);
+    for spec in [Spec::Rosen2D { a: R(1.1), b: R(100.0) }, Spec::Quartic { dim: 1, c: R(1.3) }, Spec::Gauss { dim: 2, mean: vec![R(0.3), R(-1.0)], prec: vec![R(2.0), R(0.5), R(0.5), R(1.0)] }] {
+        let d = spec.dim();
+        let n = 16;
+        let xs: Vec<f64> = (0..n * d).map(|_| ((1.5 * rng.normal()) as f32) as f64).collect();
+        let t = HTarget::new(spec.clone());
+        let pos = tensor2::<B32>(&xs, n, d).require_grad();
+        let lp = t.batch(pos.clone());
+        let g = to_vec(&Tensor::<B32, 2>::from_inner(pos.grad(&lp.backward()).unwrap()));
+        let lpv = to_vec(&lp);
+        let mut worst_g = 0.0f64;
+        let mut worst_l = 0.0f64;
+        for r in 0..n {
+            let x = &xs[r * d..(r + 1) * d];
+            let gr = spec.grad(x);
+            let gmax = gr.iter().fold(0.0f64, |a, b| a.max(b.abs()));
+            for k in 0..d {
+                worst_g = worst_g.max((g[r * d + k] - gr[k]).abs() / gmax.max(1e-30));
+            }
+            worst_l = worst_l.max((lpv[r] - spec.logp(x)).abs() / spec.logp(x).abs().max(1e-30));
+        }
+        println!("{}: worst relative gradient error {:e}, worst relative logp error {:e}", spec.name(), worst_g, worst_l);
     }
 }
